@@ -209,7 +209,7 @@ func algReps(alg byte) []rune {
 		case 'G':
 			key = sg.g
 		case 'W':
-			key = sg.w
+			key = [2]interface{}{sg.w, sg.g == c("prExtendedPictographic")}
 		case 'S':
 			key = sg.s
 		case 'L':
@@ -222,6 +222,36 @@ func algReps(alg byte) []rune {
 	}
 	res = append(res, 0xFFFD)
 	return res
+}
+
+// otherSigReps: the first code point of every full class signature that algReps(alg) does not already
+// contain. The key algReps uses is the model's own abstraction (e.g. "East_Asian_Width is F, W or H"
+// as one bit); that the code abstracts in the same way is part of what E3 has to check, so every full
+// signature gets a (smaller) share of the domain too.
+func otherSigReps(alg byte) []rune {
+	have := map[rune]bool{}
+	for _, r := range algReps(alg) {
+		have[r] = true
+	}
+	var res []rune
+	for _, sg := range ci.sigs {
+		if r := ci.reps[sg][0]; !have[r] {
+			have[r] = true
+			res = append(res, r)
+		}
+	}
+	return res
+}
+
+// smallRestFamily: the rests used for otherSigReps
+func smallRestFamily(alg byte) [][]byte {
+	switch alg {
+	case 'W':
+		return [][]byte{nil, enc(firstRep('W', c("prALetter"))), enc(firstRep('W', c("prNumeric"))), enc(firstRep('W', c("prHebrewLetter")))}
+	case 'S':
+		return [][]byte{nil, enc(firstRep('S', c("prLower"))), enc(firstRep('S', c("prXX")), firstRep('S', c("prLower"))), enc(firstRep('S', c("prUpper")))}
+	}
+	return [][]byte{nil, enc(firstRep('L', c("prNU"))), enc(firstRep('L', c("prCM")), firstRep('L', c("prNU"))), enc(firstRep('L', c("prAL")))}
 }
 
 func firstRep(alg byte, class int) rune {
@@ -348,7 +378,7 @@ func restFamily(alg byte, thorough bool) [][]byte {
 }
 
 func stageE3(d *driver, thorough bool, algSel map[string]bool) stageResult {
-	s := stageResult{Name: "E3", Exhaustive: true, Domain: "transition*State: every state value the packing allows (-1, 0..15 / 0..31 / 0..15 / 0..255) x one code point per class signature x a family of rests covering every look-ahead outcome (empty, each class, ignorable runs of length 0-3, U+FFFD, ill-formed bytes), byte and string form, vs Impl.transition*"}
+	s := stageResult{Name: "E3", Exhaustive: true, Domain: "transition*State: every state value the packing allows (-1, 0..15 / 0..31 / 0..15 / 0..255) x one code point per letter of the model x a family of rests covering every look-ahead outcome (empty, each class, ignorable runs of 1-3 and 7-257 code points, U+FFFD, ill-formed bytes), and x one code point per FULL class signature x a small family of rests; byte and string form, vs Impl.transition*"}
 	var ops, real []string
 	flush := func() {
 		if len(ops) > 0 {
@@ -365,7 +395,7 @@ func stageE3(d *driver, thorough bool, algSel map[string]bool) stageResult {
 	}
 	// graphemes
 	for st := -1; st <= 15 && algSel["gr"]; st++ {
-		for _, r := range algReps('G') {
+		for _, r := range append(algReps('G'), otherSigReps('G')...) {
 			ns, p, b := u.VerifTransitionGrapheme(st, r)
 			emit(fmt.Sprintf("tg %d %d", st, r), fmt.Sprintf("%d %d %d", ns, p, b2i(b)))
 		}
@@ -396,9 +426,16 @@ func stageE3(d *driver, thorough bool, algSel map[string]bool) stageResult {
 		}
 		rests := restFamily(a.alg, thorough)
 		reps := algReps(a.alg)
+		nMain := len(reps)
+		reps = append(reps, otherSigReps(a.alg)...)
+		small := smallRestFamily(a.alg)
 		for st := -1; st <= a.maxSt; st++ {
-			for _, r := range reps {
-				for _, rest := range rests {
+			for ri, r := range reps {
+				rs := rests
+				if ri >= nMain {
+					rs = small
+				}
+				for _, rest := range rs {
 					op := fmt.Sprintf("%s %d %d %s", a.op, st, r, hx(rest))
 					// byte form: a non-nil (possibly empty) slice, as the loops pass it
 					rb := rest
@@ -426,7 +463,9 @@ func stageE3(d *driver, thorough bool, algSel map[string]bool) stageResult {
 // the representative of sig(r)
 
 func stageE3b(thorough bool) stageResult {
-	s := stageResult{Name: "E3b", Exhaustive: thorough, Domain: "real transition*State and runeWidth on a code point vs on the first code point with the same class signature; quick: every code point where the signature changes and its predecessor; thorough: all code points"}
+	// the full sweep takes about 4 s on 16 cores, so both tiers run it on all code points
+	thorough = true
+	s := stageResult{Name: "E3b", Exhaustive: thorough, Domain: "real transition*State (every state value) and runeWidth on every code point vs on the first code point with the same class signature"}
 	var cps []rune
 	if thorough {
 		for r := rune(0); r <= 0x10FFFF; r++ {
@@ -652,6 +691,43 @@ func (cs *caseSource) each(f func(i int, gc genCase)) {
 	}
 }
 
+// eachLong: long inputs (several generated cases concatenated), because a defect may need an offset, a
+// segment count or a cluster length far beyond what one rule template produces; lengths are drawn
+// between 200 bytes and maxLen
+func (cs *caseSource) eachLong(count, maxLen int, f func(i int, gc genCase)) {
+	for i := 0; i < count; i++ {
+		r := newRng(cs.seed, cs.stream+"/long", uint64(i))
+		target := 200 + r.intn(maxLen-199)
+		if r.chance(1, 4) {
+			// powers of two and their neighbours
+			p := 256 << uint(r.intn(6))
+			if p > maxLen {
+				p = maxLen
+			}
+			target = p - 2 + r.intn(5)
+		}
+		var b []byte
+		k := 0
+		for len(b) < target {
+			rr := newRng(cs.seed, cs.stream+"/longpart", uint64(i)*1000+uint64(k))
+			k++
+			gc := genAny(rr)
+			if r.chance(1, 3) {
+				// the same piece several times: long runs of one shape
+				for n := 1 + r.intn(6); n > 0 && len(b) < target; n-- {
+					b = append(b, gc.input...)
+				}
+			} else {
+				b = append(b, gc.input...)
+			}
+			if k > 5000 {
+				break
+			}
+		}
+		f(-2-i, genCase{input: b, kind: "long", tplIdx: -1})
+	}
+}
+
 func recordDist(dd *dist, seen map[string]bool, gc genCase) {
 	dd.Kinds[gc.kind]++
 	dd.Lengths[lenBucket(utf8.RuneCount(gc.input))]++
@@ -734,6 +810,12 @@ func stageE5(d *driver, cs *caseSource, dd *dist, only map[string]bool, thorough
 	}
 	cs.each(func(i int, gc genCase) {
 		recordDist(dd, seen, gc)
+		if modelSized(gc.input) {
+			handle(gc.input)
+		}
+	})
+	cs.eachLong(cs.n/800, 600, func(i int, gc genCase) {
+		recordDist(dd, seen, gc)
 		handle(gc.input)
 	})
 	if thorough {
@@ -815,7 +897,10 @@ func stageE6(d *driver, seed uint64, n int, amb int) stageResult {
 	for i := 0; i < n; i++ {
 		r := newRng(seed, "E6", uint64(i))
 		gc := genAny(r)
-		if r.chance(1, 30) {
+		for k := 0; !modelSized(gc.input) && k < 20; k++ {
+			gc = genAny(r) // the model's iterator is quadratic; long inputs go to the C13 monitor
+		}
+		if r.chance(1, 30) || !modelSized(gc.input) {
 			gc.input = nil
 		}
 		seq := genIterOps(r)
@@ -996,7 +1081,12 @@ func stageSpec(d *driver, cs *caseSource, kindsWanted []string, withStep bool, t
 			flush()
 		}
 	}
-	cs.each(func(i int, gc genCase) { handle(gc.input, kindsWanted) })
+	cs.each(func(i int, gc genCase) {
+		if modelSized(gc.input) {
+			handle(gc.input, kindsWanted)
+		}
+	})
+	cs.eachLong(cs.n/400, 800, func(i int, gc genCase) { handle(gc.input, kindsWanted) })
 	if thorough {
 		for _, k := range kindsWanted {
 			alg := map[string]byte{"fg": 'G', "fw": 'W', "fs": 'S', "fl": 'L'}[k]
@@ -1124,7 +1214,7 @@ func stageWidthSpec(d *driver, cs *caseSource, thorough bool) stageResult {
 		ops, inputs = ops[:0], inputs[:0]
 	}
 	cs.each(func(i int, gc genCase) {
-		if len(gc.input) == 0 {
+		if len(gc.input) == 0 || !modelSized(gc.input) {
 			return
 		}
 		ops = append(ops, fmt.Sprintf("specwidth %d %s", cs.amb, hx(gc.input)))
@@ -1132,6 +1222,10 @@ func stageWidthSpec(d *driver, cs *caseSource, thorough bool) stageResult {
 		if len(ops) >= 10000 {
 			flush()
 		}
+	})
+	cs.eachLong(cs.n/400, 1000, func(i int, gc genCase) {
+		ops = append(ops, fmt.Sprintf("specwidth %d %s", cs.amb, hx(gc.input)))
+		inputs = append(inputs, gc.input)
 	})
 	// every code point on its own and after a few first code points that change the composition rule
 	if thorough {
